@@ -27,6 +27,21 @@ pub struct CrashCfg {
     pub suffix_variant: usize,
 }
 
+/// Indices on which two candidate states differ (at most 2000): long logs are observed on a sample
+/// only, and these must always be part of it when the two states are to be told apart.
+pub fn differing_indices(a: &ListModel, b: &ListModel) -> Vec<u64> {
+    let mut differ = vec![];
+    for i in 0..a.len().max(b.len()) {
+        if a.get(i) != b.get(i) {
+            differ.push(i);
+            if differ.len() > 2000 {
+                break;
+            }
+        }
+    }
+    differ
+}
+
 /// Compare an observation with a model state; None if equal.
 pub fn obs_vs_model(obs: &Obs, m: &ListModel, check_contig: bool) -> Option<String> {
     if obs.length != m.len() {
@@ -35,8 +50,8 @@ pub fn obs_vs_model(obs: &Obs, m: &ListModel, check_contig: bool) -> Option<Stri
     if obs.byte_length != m.byte_length {
         return Some(format!("byte_length {} vs model {}", obs.byte_length, m.byte_length));
     }
-    if obs.fork != 0 {
-        return Some(format!("fork {}", obs.fork));
+    if obs.fork != m.fork {
+        return Some(format!("fork {} vs model {}", obs.fork, m.fork));
     }
     if obs.writeable != m.writeable {
         return Some(format!("writeable {} vs model {}", obs.writeable, m.writeable));
